@@ -751,10 +751,18 @@ package lua
 // recovery closes those of the dying coroutine) - raiseError / Error themselves only build the message and push it.
 // In particular the open upvalues of enclosing, still live activations are NOT closed by an error that is caught below them.
 // ---------------------------------------------------------------------------
-//@ trusted (*LState).where [C03 C05 C17]
-//@ assume where(level, skipg) only reads the call stack and formats "<source>:<line>:" (its frame walk and string assembly are not verified)
+// where(level, skipg): the position is taken from the frame GetStack(level) finds; a host frame has none, and with skipg the
+// search goes on ONE level further out with the SAME flag (so any number of nested host frames is skipped); the line is the
+// one recorded for the instruction that frame is executing (Pc - 1). The final string assembly (fmt.Sprintf) is not verified.
+//@ func (*LState).where [C03 C05 C17]
 //@ logged
+// well-formedness of the call stack (whole-execution facts, assumed at entry, not asked of callers): frames on the Parent chain
+// have a function, and a Lua frame that is running or suspended in a call has executed at least one instruction
+//@ entry-assumes ls != nil && ls.stack != nil && $inv(ls.stack) && (ls.currentFrame != nil ==> ls.currentFrame.Fn != nil && ls.currentFrame.TailCall >= 0) && (forall f *callFrame :: onChain(ls.currentFrame, f) ==> f.Fn != nil && f.TailCall >= 0) && ($sp(ls.stack) > 0 ==> $frame(ls.stack, 0) != nil && $frame(ls.stack, 0).Fn != nil) && (forall f *callFrame :: f != nil && f.Fn != nil && f.Fn.Proto != nil ==> 1 <= f.Pc && f.Pc <= len(f.Fn.Proto.DbgSourcePositions) && offset(f.Fn.Proto.DbgSourcePositions) == 0)
 //@ noraise
+//@ ensures  "host-frames-are-skipped-one-level-out-with-the-same-flag": ncalls() > old(ncalls()) ==> ncalls() == old(ncalls()) + 1 && callfn(old(ncalls())) == fnid("(*LState).where") && callargInt(old(ncalls()), 1) == level + 1 && (callargBool(old(ncalls()), 2) <==> skipg) && skipg && result == callresStr(old(ncalls()), 0)
+//@ let@"line = fmt.Sprintf" posIdx = cf.Pc - 1
+//@ assert@"line = fmt.Sprintf" proto == cf.Fn.Proto && proto != nil && 0 <= posIdx && posIdx < len(proto.DbgSourcePositions)
 //@ modifies nothing
 
 // the position prefix of an error raised at level n: level 1 = the function that raised it, level 2 = its caller, ... In
